@@ -8,30 +8,9 @@
                  (fn AR a args) (call AR a args) (py a..) (cond a..) (ea a..) (adv AR a) *)
 From Coq Require Import ZArith List String.
 From KB Require Import Sx.
-From C12 Require Import Generated Model.
+From C12 Require Import Generated Model Env.
 Import ListNotations.
 Open Scope Z_scope.
-
-Fixpoint lookup_arity (tbl : list (list Z * option nat)) (a : list Z) (ctx : nat) : nat :=
-  match tbl with
-  | [] => 0%nat
-  | (k, v) :: r => if zlist_eqb k a then match v with Some n => n | None => ctx end else lookup_arity r a ctx
-  end.
-
-Definition genv : env := {|
-  isspace := ascii_isspace;
-  isnumeric := ascii_isdigit;
-  isalpha := ascii_isalpha;
-  isdigit := ascii_isdigit;
-  num_ok := ascii_num_ok;
-  delims := delims_tbl;
-  monads := monads_tbl;
-  dyads := dyads_tbl;
-  adverbs := adverbs_tbl;
-  adverb_arity := lookup_arity adverb_arity_tbl;
-  reserved := reserved_tbl;
-  comment_guard := comment_guard_present
-|}.
 
 Fixpoint sx_ast (a : ast) : sx :=
   match a with
